@@ -639,6 +639,299 @@ theorem statement_identity_immutable (xs : List Step) (st : State) (o : Nat) (h 
     simp only [exec]
     exact ⟨g1.trans h1, g2.trans h2, g3.trans h3, Nat.le_trans h4 g4⟩
 
+/-! ## Part A.4 — reachability: statement objects, slots and program counters stay well-formed -/
+
+/-- a statement object was created from a PREPARED answer to `PREPARE q<s>`: its text is `q<s>` and its id names `s` -/
+def ObjOK (o : Stmt) : Prop := ∃ s, s < 8 ∧ o.text = textOf s ∧ o.id.stmt = s
+
+/-- program counters only refer to existing statement objects (`n` = number of objects) -/
+def PcOK (n : Nat) : Pc → Prop
+  | .idle => True
+  | .fresh slot _ text => text = textOf slot
+  | .exec1 op _ => op.obj < n
+  | .execPrep op => op.obj < n
+  | .exec2 op _ => op.obj < n
+  | .batch op _ => ∀ it ∈ op.items, it.1 < n
+  | .batchPrep op _ o => o < n ∧ ∀ it ∈ op.items, it.1 < n
+
+def WireOK (c : Caller) : Prop :=
+  match c.pc, c.wire with
+  | .fresh _ _ text, .req _ r => r = .prepare text
+  | .fresh _ _ text, .resp (.prepared p) => ∃ s, s < 8 ∧ text = textOf s ∧ p.id.stmt = s
+  | _, _ => True
+
+/-- well-formedness of a reachable state -/
+def WF (st : State) : Prop :=
+  (∀ o, o < st.nObjs → ObjOK (st.objs o)) ∧ (∀ s o, st.slot s = some o → o < st.nObjs) ∧
+  (∀ k, PcOK st.nObjs (st.caller k).pc ∧ WireOK (st.caller k))
+
+private theorem PcOK_mono {n m : Nat} (h : n ≤ m) (pc : Pc) (hp : PcOK n pc) : PcOK m pc := by
+  cases pc <;> simp only [PcOK] at hp ⊢
+  · exact hp
+  · exact Nat.lt_of_lt_of_le hp h
+  · exact Nat.lt_of_lt_of_le hp h
+  · exact Nat.lt_of_lt_of_le hp h
+  · exact fun it hit => Nat.lt_of_lt_of_le (hp it hit) h
+  · exact ⟨Nat.lt_of_lt_of_le hp.1 h, fun it hit => Nat.lt_of_lt_of_le (hp.2 it hit) h⟩
+
+private theorem stmtOfTextAux_some (t : String) (n s : Nat) (h : stmtOfTextAux t n = some s) :
+    s < n ∧ t = textOf s := by
+  induction n with
+  | zero => simp [stmtOfTextAux] at h
+  | succ n ih =>
+    simp only [stmtOfTextAux] at h
+    split at h
+    · rename_i heq
+      simp only [Option.some.injEq] at h
+      subst h
+      exact ⟨Nat.lt_succ_self _, (by simpa using heq : textOf n = t).symm⟩
+    · obtain ⟨h1, h2⟩ := ih h
+      exact ⟨Nat.lt_succ_of_lt h1, h2⟩
+
+private theorem serve_prepared_id (n : Node) (t : String) (p : PrepResp) (h : (serve n (.prepare t)).2 = .prepared p) :
+    ∃ s, s < 8 ∧ t = textOf s ∧ p.id.stmt = s := by
+  simp only [serve] at h
+  split at h
+  · simp at h
+  · rename_i s hs
+    obtain ⟨h1, h2⟩ := stmtOfTextAux_some t 8 s hs
+    split at h
+    · simp at h
+    · split at h
+      · simp at h
+      · simp only [Resp.prepared.injEq] at h
+        subst h
+        exact ⟨s, h1, h2, rfl⟩
+
+private theorem resolveItems_lt (slot : Nat → Option Nat) (n : Nat) (hs : ∀ s o, slot s = some o → o < n)
+    (items r : List (Nat × List Nat)) (h : resolveItems slot items = some r) : ∀ it ∈ r, it.1 < n := by
+  induction items generalizing r with
+  | nil => simp [resolveItems] at h; subst h; simp
+  | cons x xs ih =>
+    obtain ⟨s, v⟩ := x
+    simp only [resolveItems] at h
+    split at h
+    · rename_i o r' ho hr'
+      simp only [Option.some.injEq] at h
+      subst h
+      intro it hit
+      rcases List.mem_cons.mp hit with e | e
+      · subst e; exact hs s o ho
+      · exact ih r' hr' it e
+    · simp at h
+
+private theorem nObjs_mono_step (st : State) (x : Step) : st.nObjs ≤ (step st x).1.nObjs := by
+  by_cases h0 : 0 < st.nObjs
+  · exact (statement_identity_immutable_step st x 0 h0).2.2.2
+  · have : st.nObjs = 0 := by omega
+    omega
+
+private theorem objOK_of_ident {a b : Stmt} (h1 : b.id = a.id) (h2 : b.text = a.text) (h : ObjOK a) : ObjOK b := by
+  obtain ⟨s, hs, ht, hi⟩ := h
+  exact ⟨s, hs, h2.trans ht, by rw [h1]; exact hi⟩
+
+/-- `WF` is preserved by every step of every kind. -/
+theorem wf_step (st : State) (x : Step) (hwf : WF st) : WF (step st x).1 := by
+  obtain ⟨hobjs, hslots, hcallers⟩ := hwf
+  have hmono := nObjs_mono_step st x
+  -- callers other than the one stepping
+  have hother : ∀ j, stepCaller x ≠ some j →
+      PcOK (step st x).1.nObjs ((step st x).1.caller j).pc ∧ WireOK ((step st x).1.caller j) := by
+    intro j hj
+    rw [other_steps_keep_caller st x j hj]
+    exact ⟨PcOK_mono hmono _ (hcallers j).1, (hcallers j).2⟩
+  cases x with
+  | event n e =>
+    exact ⟨hobjs, hslots, fun k => hother k (by simp [stepCaller])⟩
+  | serve k =>
+    refine ⟨?_, ?_, ?_⟩
+    · intro o ho
+      have : (step st (.serve k)).1.objs = st.objs := by simp only [step, serveStep]; split <;> rfl
+      have hn : (step st (.serve k)).1.nObjs = st.nObjs := by simp only [step, serveStep]; split <;> rfl
+      rw [this]; exact hobjs o (hn ▸ ho)
+    · intro s o hso
+      have : (step st (.serve k)).1.slot = st.slot := by simp only [step, serveStep]; split <;> rfl
+      have hn : (step st (.serve k)).1.nObjs = st.nObjs := by simp only [step, serveStep]; split <;> rfl
+      rw [hn]; exact hslots s o (this ▸ hso)
+    · intro j
+      by_cases hj : j = k
+      · subst hj
+        have hk := hcallers j
+        simp only [step, serveStep]
+        split
+        · rename_i n r hw
+          simp only [upd_same]
+          refine ⟨hk.1, ?_⟩
+          cases hpc : (st.caller j).pc <;> simp only [WireOK, hpc] <;> try trivial
+          rename_i slot node text
+          have hreq : r = .prepare text := by
+            have := hk.2; simp only [WireOK, hpc, hw] at this; exact this
+          subst hreq
+          cases hr : (serve (st.node n) (.prepare text)).2 <;> simp only [hr] <;> try trivial
+          exact serve_prepared_id _ _ _ hr
+        · exact hk
+      · exact hother j (by simp [stepCaller]; exact fun e => hj e.symm)
+  | start k op =>
+    have hobjs' : (step st (.start k op)).1.objs = st.objs := by
+      simp only [step, start]
+      split
+      · cases op with
+        | prepare s n => simp [setCaller]
+        | execute a => simp only; split <;> simp [setCaller]
+        | batch a => simp only; split <;> simp [setCaller]
+      · rfl
+    have hn : (step st (.start k op)).1.nObjs = st.nObjs := by
+      simp only [step, start]
+      split
+      · cases op with
+        | prepare s n => simp [setCaller]
+        | execute a => simp only; split <;> simp [setCaller]
+        | batch a => simp only; split <;> simp [setCaller]
+      · rfl
+    have hslot' : (step st (.start k op)).1.slot = st.slot := by
+      simp only [step, start]
+      split
+      · cases op with
+        | prepare s n => simp [setCaller]
+        | execute a => simp only; split <;> simp [setCaller]
+        | batch a => simp only; split <;> simp [setCaller]
+      · rfl
+    refine ⟨fun o ho => by rw [hobjs']; exact hobjs o (hn ▸ ho),
+            fun s o h => by rw [hn]; exact hslots s o (hslot' ▸ h), ?_⟩
+    intro j
+    by_cases hj : j = k
+    · subst hj
+      have hk := hcallers j
+      rw [hn]
+      simp only [step, start]
+      split
+      · cases op with
+        | prepare s n => simp [setCaller, PcOK, WireOK]
+        | execute a =>
+          simp only
+          split
+          · exact hk
+          · rename_i o ho
+            simp only [setCaller, upd_same, PcOK, WireOK]
+            exact ⟨hslots _ _ ho, trivial⟩
+        | batch a =>
+          simp only
+          split
+          · exact hk
+          · rename_i items hres
+            simp only [setCaller, upd_same, PcOK, WireOK]
+            exact ⟨resolveItems_lt st.slot st.nObjs hslots _ _ hres, trivial⟩
+      · exact hk
+    · exact hother j (by simp [stepCaller]; exact fun e => hj e.symm)
+  | recv k =>
+    have hk := hcallers k
+    rcases hck : st.caller k with ⟨pc, wire⟩
+    rw [hck] at hk
+    -- everything except a fresh prepare keeps objects' identity and the slots
+    have hold : ∀ o, o < st.nObjs → ObjOK ((step st (.recv k)).1.objs o) := fun o ho =>
+      objOK_of_ident (statement_identity_immutable_step st (.recv k) o ho).1
+        (statement_identity_immutable_step st (.recv k) o ho).2.1 (hobjs o ho)
+    have hfinal : ∀ j, j ≠ k →
+        PcOK (step st (.recv k)).1.nObjs ((step st (.recv k)).1.caller j).pc ∧ WireOK ((step st (.recv k)).1.caller j) :=
+      fun j hj => hother j (by simp [stepCaller]; exact fun e => hj e.symm)
+    cases wire with
+    | none =>
+      have : (step st (.recv k)).1 = st := by simp [step, recv, hck]
+      rw [this]; exact ⟨hobjs, hslots, hcallers⟩
+    | req n' r' =>
+      have : (step st (.recv k)).1 = st := by simp [step, recv, hck]
+      rw [this]; exact ⟨hobjs, hslots, hcallers⟩
+    | resp resp =>
+      by_cases hfresh : ∃ slot node text p, pc = .fresh slot node text ∧ resp = .prepared p
+      · obtain ⟨slot, node, text, p, rfl, rfl⟩ := hfresh
+        obtain ⟨s, hs, htx, hps⟩ : ∃ s, s < 8 ∧ text = textOf s ∧ p.id.stmt = s := by
+          have := hk.2; simpa [WireOK] using this
+        have hst : (step st (.recv k)).1 =
+            setCaller { st with objs := upd st.objs st.nObjs ⟨text, p.id, prepMeta p, prepMeta p⟩, nObjs := st.nObjs + 1,
+                                slot := upd st.slot slot (some st.nObjs) } k ⟨.idle, .none⟩ := by
+          simp [step, recv, hck, finish]
+        rw [hst]
+        refine ⟨?_, ?_, ?_⟩
+        · intro o ho
+          simp only [setCaller, upd] at ho ⊢
+          split
+          · exact ⟨s, hs, htx, hps⟩
+          · exact hobjs o (by omega)
+        · intro s' o hso
+          simp only [setCaller, upd] at hso ⊢
+          split at hso
+          · simp only [Option.some.injEq] at hso; omega
+          · exact Nat.lt_succ_of_lt (hslots s' o hso)
+        · intro j
+          simp only [setCaller, upd]
+          split
+          · simp [PcOK, WireOK]
+          · exact ⟨PcOK_mono (Nat.le_succ _) _ (hcallers j).1, (hcallers j).2⟩
+      · -- no object is created: nObjs and slots unchanged
+        have hR : ∀ (e : Bool) (o : Nat) (c : Option RMeta) (r : Resp),
+            (handleResp st e o c r).nObjs = st.nObjs ∧ (handleResp st e o c r).slot = st.slot := by
+          intro e o c r
+          cases r <;> simp [handleResp]
+          split <;> simp [setCur]
+        have hn : (step st (.recv k)).1.nObjs = st.nObjs ∧ (step st (.recv k)).1.slot = st.slot := by
+          cases pc with
+          | idle => simp [step, recv, hck]
+          | fresh slot node text =>
+            cases resp with
+            | prepared p => exact absurd ⟨_, _, _, _, rfl, rfl⟩ hfresh
+            | _ => simp [step, recv, hck, finish, setCaller]
+          | exec1 op c => cases resp <;> simp [step, recv, hck, finish, send, setCaller, hR]
+          | exec2 op c => simp [step, recv, hck, finish, setCaller, hR]
+          | execPrep op =>
+            cases resp <;> simp only [step, recv, hck] <;> (try split) <;> simp [finish, send, setCaller, setCur]
+          | batch op f =>
+            cases resp <;> simp only [step, recv, hck] <;> (try split) <;> simp [finish, send, setCaller]
+          | batchPrep op f o =>
+            cases resp <;> simp only [step, recv, hck] <;> (try split) <;> simp [finish, send, setCaller, setCur]
+        refine ⟨fun o ho => hold o (hn.1 ▸ ho), fun s o h => by rw [hn.1]; exact hslots s o (hn.2 ▸ h), ?_⟩
+        intro j
+        by_cases hj : j = k
+        · subst hj
+          rw [hn.1]
+          have hpk := hk.1
+          cases pc with
+          | idle => simp [step, recv, hck, PcOK, WireOK]
+          | fresh slot node text =>
+            cases resp with
+            | prepared p => exact absurd ⟨_, _, _, _, rfl, rfl⟩ hfresh
+            | _ => simp [step, recv, hck, finish, setCaller, PcOK, WireOK]
+          | exec1 op c =>
+            simp only [PcOK] at hpk
+            cases resp <;> simp [step, recv, hck, finish, send, setCaller, PcOK, WireOK, hpk]
+          | exec2 op c => simp [step, recv, hck, finish, setCaller, PcOK, WireOK]
+          | execPrep op =>
+            simp only [PcOK] at hpk
+            cases resp <;> simp only [step, recv, hck] <;> (try split) <;>
+              simp [finish, send, setCaller, PcOK, WireOK, hpk]
+          | batch op f =>
+            simp only [PcOK] at hpk
+            cases resp with
+            | unprepared id =>
+              simp only [step, recv, hck]
+              split
+              · rename_i o ho
+                obtain ⟨⟨v, hv⟩, _⟩ := findInBatch_some _ _ _ _ ho
+                simp only [send, setCaller, upd_same, PcOK, WireOK]
+                exact ⟨⟨hpk _ hv, hpk⟩, trivial⟩
+              · simp [finish, setCaller, PcOK, WireOK]
+            | _ => simp [step, recv, hck, finish, setCaller, PcOK, WireOK]
+          | batchPrep op f o =>
+            simp only [PcOK] at hpk
+            cases resp <;> simp only [step, recv, hck] <;> (try split) <;>
+              simp [finish, send, setCaller, PcOK, WireOK, hpk.2]
+        · exact hfinal j hj
+
+/-- `WF` holds along EVERY history. -/
+theorem wf_exec (xs : List Step) (st : State) (hwf : WF st) : WF (exec st xs) := by
+  induction xs generalizing st with
+  | nil => exact hwf
+  | cons x xs ih => exact ih _ (wf_step st x hwf)
+
 /-! ## Part B — end to end, under the server assumption
 
 ASSUMPTION (about ScyllaDB, not proved, stated as hypotheses `NodeOK` / `EventOK` and as the definition `serve`):
